@@ -396,7 +396,7 @@ PROPS = {
                 "Oracle: the test process survives (an unrecovered panic in any server goroutine kills it), the sentinel gets keep-alive and "
                 "user-list replies at quiescence (a real-time watchdog turns a wedge into a violation), no well-behaved client is disconnected; "
                 "after the hostile connections close: user list == registry == CurrentlyConnected == well-behaved clients, "
-                "DownloadsInProgress == UploadsInProgress == 0, every well-behaved client still answered; the whole case (a few hundred hostile bytes) allocates less than 512 MiB in total (runtime.MemStats.TotalAlloc; the repaired tree peaks at 58 MiB). TestC03Net (child process, production "
+                "DownloadsInProgress == UploadsInProgress == 0, every well-behaved client still answered, including get-client-info requests about every connected user; the whole case (a few hundred hostile bytes) allocates less than 512 MiB in total (runtime.MemStats.TotalAlloc; the repaired tree peaks at 58 MiB). TestC03Net (child process, production "
                 "ListenAndServe over loopback): 1500 (thorough 12000) connections from as many distinct 127.x.y.z source addresses, in batches of 500, 100 at a time, "
                 "with handshake-only / garbage / bad login / immediate close / login + mutated requests / 1.5-flow login that never agrees; a "
                 "well-behaved client that reads everything it is sent stays logged in; after every batch the child must still be running, the "
